@@ -232,9 +232,9 @@ func suite(reps int, maxRuns int) hlib.Suite {
 
 func suites(tier string) []hlib.Suite {
 	if tier == "quick" {
-		return []hlib.Suite{suite(4, 2)}
+		return []hlib.Suite{suite(8, 3)}
 	}
-	return []hlib.Suite{suite(32, 3)}
+	return []hlib.Suite{suite(64, 3)}
 }
 
 func main() { hlib.EnumMain("C16", suites) }
